@@ -865,7 +865,21 @@ class BuiltinMixin:
         raise OutOfReach(f'hash of {v.kind}')
 
     def sorted_model(self, v, kwargs, path, node):
-        raise OutOfReach('sorted()')
+        # library model: the sorted copy of a list is an opaque value, a function of the list (and, for model objects, of the heap:
+        # their order is given by their fields); nothing but congruence is known about it, so it can only be compared
+        ctx = self.ctx
+        if kwargs or not isinstance(v, (VHeapList, VSeq, VList)):
+            raise OutOfReach('sorted() with a key or over a non-list')
+        sq_t, ek = self.to_seq(v, path)
+        suffix = ''
+        if ek and ek[0] == 'ref':
+            from .call import MODEL_CLASSES
+            hk = tuple(sorted((str(k), f.name()) for k, f in path.heap.items() if k[0] in MODEL_CLASSES))
+            keys = ctx.str_fns.setdefault('heap_version_keys', {})
+            suffix = ('@h' + str(keys.setdefault(hk, len(keys) + 1))) if hk else ''
+        ctx.assumptions.add('library model: sorted(list) is an opaque value, an uninterpreted function of the list and the heap (congruence only)')
+        f = self.uf(f'sorted_{sq_t.sort()}{suffix}', [sq_t.sort()], ctx.sorts.PyVal)
+        return VPy(f(sq_t))
 
     # ------------------------------------------------------------------ str()
     def to_str(self, v, path, node=None, fmt=False):
